@@ -212,6 +212,26 @@ func newE2(params json.RawMessage) *e2Machine {
 			}
 		}
 	}
+	if p.Prefix == "log1100" {
+		// client 0 has created the first key and pushed 1100 operations in eleven requests; nobody else has joined: the
+		// next subscriber pulls a range far longer than one database batch or any plausible page
+		c := m.cls[0]
+		k := p.Keys[0]
+		if v := m.Apply(pt.Action{Op: "open", R: 0, T: k, K: "soc"}); v != nil {
+			m.fatal = v
+			return m
+		}
+		w := &World{P: WParams{Type: c.typ}, typ: typeOf(c.typ), reps: []*Replica{c.dts[k].rep}}
+		for batch := 0; batch < 11; batch++ {
+			for i := 0; i < 100; i++ {
+				w.Local(localCalls(w, 0, "one")[0])
+			}
+			if v := m.Apply(pt.Action{Op: "sync", R: 0}); v != nil {
+				m.fatal = v
+				return m
+			}
+		}
+	}
 	if p.Prefix == "joined" || p.Prefix == "long" {
 		for _, c := range m.cls {
 			for _, k := range p.Keys {
@@ -310,7 +330,8 @@ func (m *e2Machine) openDatatype(c *e2client, key, mode, typ string) *e2dt {
 
 func (m *e2Machine) Enabled() []pt.Action {
 	if m.fatal != nil {
-		return nil
+		// the scripted start state could not be built: one pseudo-step reports why (Apply returns m.fatal)
+		return []pt.Action{{Op: "start-state"}}
 	}
 	var as []pt.Action
 	if m.p.Foreign {
